@@ -383,16 +383,17 @@ static void enumerate(int, const std::function<bool(const Case&)>& emit)
     for (uint8_t cls = 0; cls < 2; ++cls)
         for (size_t pos = 0; pos < (cls == 0 ? 5u : 2u); ++pos)
             for (uint32_t l = 0; l <= 520; ++l)
-            {
+              for (uint32_t other : {3u, 2u})  // the neighbours odd and even (pad byte present / absent next to the field)
+              {
                 Case c;
                 c.mode = 4;
                 c.cls = cls;
-                c.seed = l * 7 + static_cast<uint32_t>(pos);
-                c.varLens.assign(5, 3);
+                c.seed = l * 7 + static_cast<uint32_t>(pos) + other;
+                c.varLens.assign(5, other);
                 c.varLens[pos] = l;
                 if (!emit(c))
                     return;
-            }
+              }
     // variable part written over earlier content: every pair (earlier length, new length) in 0..9 for one field at a time,
     // earlier content from setData and from raw bytes
     for (uint8_t cls = 0; cls < 2; ++cls)
